@@ -187,8 +187,9 @@ func Marshal(data any, args ...any) (out []byte, err error) {
 	if wr == nil {
 		wr, _ = marshalPool.Get().(*Writer)
 		defer marshalPool.Put(wr)
-	} else {
+	} else if !wr.strict {
 		wr.strict = true
+		defer func() { wr.strict = false }() // leave a caller supplied Writer as it was
 	}
 	defer func() {
 		if r := recover(); r != nil {
